@@ -89,7 +89,14 @@ def run_driver(ctx, histories, name, levelb=True, timeout=3000):
         crashed = dict(log=res["log"], last=prog[-16:], tail=res["text"][-2500:])
         if "panic:" not in res["text"] and "fatal error:" not in res["text"]:
             raise Machinery("dq driver failed without a panic (rc=%s); log %s\n%s" % (res["rc"], res["log"], res["text"][-2000:]))
-    events = ctx.read_ndjson(tf) if os.path.exists(tf) else []
+    events = []
+    if os.path.exists(tf):
+        with open(tf) as f:
+            for line in f:
+                try:
+                    events.append(json.loads(line))
+                except ValueError:      # torn last line of a driver that died
+                    break
     return events, crashed
 
 
@@ -111,6 +118,8 @@ def level_a(events):
         elif ev == "depth":
             out.append(dict(ev="depth", v=e["v"]))
         elif ev == "rec":
+            if e.get("skipped"):
+                continue
             out.append(dict(ev="rec", label=e["label"], D=e["D"], sentinel=e["sentinel"], hang=e["hang"],
                             extra=e["extra"]))
         elif ev in ("hang", "puterr"):
@@ -196,6 +205,8 @@ def level_b(events, hists):
         elif ev == "closed":
             out.append(dict(ev="closed"))
         elif ev == "hook" and e["label"] in HOOKS_B:
+            if "st" not in e:       # recorded without level-B detail
+                return [], 0, set()
             st = e["st"]
             fs = e["fs"]
             def pos(m):
